@@ -5,6 +5,7 @@ import (
 	"crypto/sha1"
 	"encoding/json"
 	"fmt"
+	"math/rand"
 	"sort"
 	"strings"
 	"sync"
@@ -231,7 +232,7 @@ func run(t map[string]string, order []string) obs {
 
 func exec(kind byte, body []byte) *core.Verdict {
 	if kind == 'B' {
-		return &core.Verdict{OK: true, Out: true}
+		return gen(body)
 	}
 	var c cas
 	if err := json.Unmarshal(body, &c); err != nil {
@@ -373,4 +374,336 @@ func check(r *core.Run) {
 	}
 	// identities whose bases arrive with a later load: the lists are those of a fresh set
 	schema.SessionHistories(r, "C11", "idm")
+	// direction B: random graphs over 2-4 modules with submodules, judged by IdentitiesTrace
+	n := 300
+	if r.Tier == "thorough" {
+		n = 4000
+	}
+	r.DirectionB("ident", n, core.TLCOpts{Module: "IdentitiesTrace", Cfg: "IdentitiesTrace.cfg", HeapGB: 8})
+}
+
+// ---- direction B: random identity graphs judged by IdentitiesTrace.tla --------------
+
+type bmod struct {
+	name    string   // module name
+	pfx     string   // prefix the module declares for itself
+	imports []int    // indices of imported modules (earlier ones only: no import cycles)
+	subs    []string // its submodules (each included by the module)
+}
+
+type bid struct {
+	key   key
+	home  string // module or submodule holding the statement
+	mod   int
+	bases []key
+}
+
+// gen builds one random program, runs it in two load orders and records what came out.
+func gen(body []byte) *core.Verdict {
+	var q struct {
+		Seed int64
+		Tid  int
+	}
+	json.Unmarshal(body, &q)
+	rng := rand.New(rand.NewSource(q.Seed*104729 + int64(q.Tid)))
+	nm := 2 + rng.Intn(3)
+	mods := make([]bmod, nm)
+	sharedPfx := rng.Intn(4) == 0
+	for i := range mods {
+		mods[i].name = fmt.Sprintf("m%d", i)
+		mods[i].pfx = fmt.Sprintf("p%d", i)
+		if sharedPfx {
+			mods[i].pfx = "pp"
+		}
+		for j := 0; j < i; j++ {
+			if rng.Intn(3) > 0 {
+				mods[i].imports = append(mods[i].imports, j)
+			}
+		}
+		for s := rng.Intn(3); s > 0; s-- {
+			mods[i].subs = append(mods[i].subs, fmt.Sprintf("m%ds%d", i, s))
+		}
+	}
+	names := []string{"alpha", "beta", "gamma", "delta", "eps", "zeta", "eta"}
+	var ids []bid
+	taken := map[key]bool{}
+	visible := func(from, to int) bool { // may text of module from name identities of module to?
+		if from == to {
+			return true
+		}
+		for _, j := range mods[from].imports {
+			if j == to {
+				return true
+			}
+		}
+		return false
+	}
+	total := 3 + rng.Intn(24)
+	for n := 0; n < total; n++ {
+		m := rng.Intn(nm)
+		k := key{mods[m].name, names[rng.Intn(len(names))]}
+		if taken[k] {
+			continue
+		}
+		taken[k] = true
+		home := mods[m].name
+		if len(mods[m].subs) > 0 && rng.Intn(2) == 0 {
+			home = mods[m].subs[rng.Intn(len(mods[m].subs))]
+		}
+		x := bid{key: k, home: home, mod: m}
+		// bases among the identities generated so far (acyclic by construction)
+		subIdx := func(mi int, h string) int {
+			for a, s := range mods[mi].subs {
+				if s == h {
+					return a
+				}
+			}
+			return -1
+		}
+		var cand []bid
+		for _, o := range ids {
+			if !visible(m, o.mod) {
+				continue
+			}
+			// a submodule includes the siblings listed before it only: what it may name in a later one is the RFCs' business
+			if o.mod == m && home != mods[m].name && o.home != mods[m].name && o.home != home && subIdx(m, o.home) > subIdx(m, home) {
+				continue
+			}
+			cand = append(cand, o)
+		}
+		nb := 0
+		switch r := rng.Intn(10); {
+		case r < 2:
+			nb = 0
+		case r < 7:
+			nb = 1
+		case r < 9:
+			nb = 2
+		default:
+			nb = 3
+		}
+		seen := map[key]bool{}
+		for b := 0; b < nb && len(cand) > 0; b++ {
+			o := cand[rng.Intn(len(cand))]
+			if !seen[o.key] {
+				seen[o.key] = true
+				x.bases = append(x.bases, o.key)
+			}
+		}
+		ids = append(ids, x)
+	}
+	// now and then something wrong: an undefined base, an identity based on itself, a longer cycle
+	class := "acyclic"
+	switch r := rng.Intn(12); {
+	case r == 0 && len(ids) > 0:
+		i := rng.Intn(len(ids))
+		ids[i].bases = append(ids[i].bases, key{"?", "nosuch"})
+		class = "cycle-or-undefined-base"
+	case r == 1 && len(ids) > 0:
+		i := rng.Intn(len(ids))
+		ids[i].bases = append(ids[i].bases, ids[i].key)
+		class = "identity-based-on-itself"
+	case r == 2 && len(ids) > 1:
+		// a back edge inside one module (visibility is certain there)
+		for try := 0; try < 20; try++ {
+			i, j := rng.Intn(len(ids)), rng.Intn(len(ids))
+			if i < j && ids[i].home == ids[j].home {
+				dup := false
+				for _, b := range ids[i].bases {
+					dup = dup || b == ids[j].key
+				}
+				if !dup {
+					ids[i].bases = append(ids[i].bases, ids[j].key)
+					class = "back-edge" // a cycle only if j reaches i
+				}
+				break
+			}
+		}
+	}
+	cnt := map[string]int{}
+	for _, i := range ids {
+		cnt[i.key[1]]++
+	}
+	if class == "acyclic" {
+		for _, n := range cnt {
+			if n > 1 {
+				class = "same-name-in-two-modules"
+			}
+		}
+	}
+	// ---- rendering ----
+	text := map[string]*strings.Builder{}
+	var files []string
+	w := func(f string) *strings.Builder {
+		if text[f] == nil {
+			text[f] = &strings.Builder{}
+			files = append(files, f)
+		}
+		return text[f]
+	}
+	for i, m := range mods {
+		b := w(m.name)
+		fmt.Fprintf(b, "module %s { namespace \"urn:%s\"; prefix %s;\n", m.name, m.name, m.pfx)
+		for _, j := range m.imports {
+			fmt.Fprintf(b, "  import %s { prefix i%d; }\n", mods[j].name, j)
+		}
+		for _, s := range m.subs {
+			fmt.Fprintf(b, "  include %s;\n", s)
+			sb := w(s)
+			// a submodule names the other modules through imports of its own, under prefixes of its own
+			fmt.Fprintf(sb, "submodule %s { belongs-to %s { prefix own; }\n", s, m.name)
+			for _, j := range m.imports {
+				fmt.Fprintf(sb, "  import %s { prefix s%d; }\n", mods[j].name, j)
+			}
+			for _, s2 := range m.subs {
+				if s2 == s {
+					break
+				}
+				fmt.Fprintf(sb, "  include %s;\n", s2)
+			}
+		}
+		_ = i
+	}
+	modIdx := map[string]int{}
+	for i, m := range mods {
+		modIdx[m.name] = i
+	}
+	for n, x := range ids {
+		b := w(x.home)
+		fmt.Fprintf(b, "  identity %s {", x.key[1])
+		inSub := x.home != x.key[0]
+		for k, bs := range x.bases {
+			sp := ""
+			switch {
+			case bs[0] == "?":
+				sp = "nosuch"
+			case bs[0] == x.key[0]: // own module: with or without the own prefix
+				if (n+k)%2 == 0 {
+					sp = bs[1]
+				} else if inSub {
+					sp = "own:" + bs[1]
+				} else {
+					sp = mods[x.mod].pfx + ":" + bs[1]
+				}
+			case inSub:
+				sp = fmt.Sprintf("s%d:%s", modIdx[bs[0]], bs[1])
+			default:
+				sp = fmt.Sprintf("i%d:%s", modIdx[bs[0]], bs[1])
+			}
+			fmt.Fprintf(b, " base %s;", sp)
+		}
+		b.WriteString(" }\n")
+	}
+	// a module on top that imports everything and holds one identityref leaf per identity
+	top := w("top")
+	top.WriteString("module top { namespace \"urn:top\"; prefix top;\n")
+	for j, m := range mods {
+		fmt.Fprintf(top, "  import %s { prefix t%d; }\n", m.name, j)
+	}
+	for n, x := range ids {
+		fmt.Fprintf(top, "  leaf ref%d { type identityref { base t%d:%s; } }\n", n, x.mod, x.key[1])
+	}
+	for _, f := range files {
+		text[f].WriteString("}\n")
+	}
+	// ---- two runs in different load orders ----
+	type rec struct {
+		Key  key   `json:"key"`
+		Vals []key `json:"vals"`
+	}
+	runOnce := func(order []string) (perr error, nerr int, values, refs []rec) {
+		ms := yang.NewModules()
+		for _, f := range order {
+			if err := ms.Parse(text[f].String(), f+".yang"); err != nil {
+				return err, 0, nil, nil
+			}
+		}
+		nerr = len(ms.Process())
+		if nerr > 0 {
+			return nil, nerr, nil, nil
+		}
+		toKeys := func(vs []*yang.Identity) []key {
+			out := []key{}
+			for _, v := range vs {
+				q := qual(v)
+				c := strings.IndexByte(q, ':')
+				out = append(out, key{q[:c], q[c+1:]})
+			}
+			return out
+		}
+		byKey := map[key]*yang.Identity{}
+		var all []*yang.Module
+		for _, m := range ms.Modules {
+			all = append(all, m)
+		}
+		for _, m := range ms.SubModules {
+			all = append(all, m)
+		}
+		for _, m := range all {
+			for _, i := range m.Identities() {
+				q := qual(i)
+				c := strings.IndexByte(q, ':')
+				byKey[key{q[:c], q[c+1:]}] = i
+			}
+		}
+		for _, x := range ids {
+			if i := byKey[x.key]; i != nil {
+				values = append(values, rec{x.key, toKeys(i.Values)})
+			}
+		}
+		te := yang.ToEntry(ms.Modules["top"])
+		for n, x := range ids {
+			l := te.Dir[fmt.Sprintf("ref%d", n)]
+			if l != nil && l.Type != nil && l.Type.IdentityBase != nil {
+				refs = append(refs, rec{x.key, toKeys(l.Type.IdentityBase.Values)})
+			} else {
+				refs = append(refs, rec{x.key, []key{{"?", "no identity base"}}})
+			}
+		}
+		return nil, nerr, values, refs
+	}
+	ord1 := append([]string{}, files...)
+	ord2 := append([]string{}, files...)
+	rng.Shuffle(len(ord2), func(i, j int) { ord2[i], ord2[j] = ord2[j], ord2[i] })
+	p1, n1, v1, r1 := runOnce(ord1)
+	p2, n2, v2, _ := runOnce(ord2)
+	var sb strings.Builder
+	for _, f := range files {
+		sb.WriteString(text[f].String())
+	}
+	if p1 != nil || p2 != nil {
+		return &core.Verdict{Infra: fmt.Sprintf("rendered modules do not parse: %v %v\n%s", p1, p2, sb.String())}
+	}
+	type jid struct {
+		Key   key    `json:"key"`
+		Home  string `json:"home"`
+		Bases []key  `json:"bases"`
+	}
+	jids := []jid{}
+	for _, x := range ids {
+		bs := x.bases
+		if bs == nil {
+			bs = []key{}
+		}
+		jids = append(jids, jid{x.key, x.home, bs})
+	}
+	if v1 == nil {
+		v1 = []rec{}
+	}
+	if v2 == nil {
+		v2 = []rec{}
+	}
+	if r1 == nil {
+		r1 = []rec{}
+	}
+	// a second run that errs where the first did not (or the reverse) shows as values # values2 or through err
+	ev := map[string]any{"ev": "idents", "ids": jids, "err": n1 > 0 || n2 > 0, "errboth": n1 > 0 && n2 > 0, "values": v1, "values2": v2, "refs": r1, "yang": sb.String()}
+	reset := map[string]any{"ev": "reset", "tid": q.Tid}
+	e0, _ := json.Marshal(reset)
+	e1, _ := json.Marshal(ev)
+	v := &core.Verdict{OK: true, Class: class, NT: len(ids) >= 4, N: 2, Events: []json.RawMessage{e0, e1}}
+	if q.Tid == 1 {
+		v.Sample = map[string]any{"yang": sb.String(), "values": v1}
+	}
+	return v
 }
